@@ -143,4 +143,3 @@ func vpPerm(n int) []int {
 }
 
 var vpEntryNames = [4]string{"a", "bb", "ccc", "dddd"}
-
